@@ -192,7 +192,7 @@ func runC06(c *Ctx) {
 						ok = false
 						continue
 					}
-					switch kv.Key.(*ast.Ident).Name {
+					switch eng.NameOf(kv.Key.(*ast.Ident)) {
 					case "ID":
 						ok = ok && eng.IsField(info, kv.Value, "dht.IpfsDHT.self")
 					case "Addrs":
@@ -234,7 +234,7 @@ func runC06(c *Ctx) {
 		}
 		okSelf := false
 		if cl, isCL := eng.Unparen(adds[0].Args[2]).(*ast.CompositeLit); isCL && len(cl.Elts) == 1 {
-			if kv, isKV := cl.Elts[0].(*ast.KeyValueExpr); isKV && kv.Key.(*ast.Ident).Name == "ID" {
+			if kv, isKV := cl.Elts[0].(*ast.KeyValueExpr); isKV && eng.NameOf(kv.Key.(*ast.Ident)) == "ID" {
 				okSelf = eng.IsField(info, kv.Value, "dht.IpfsDHT.self")
 				if call, isCall := eng.IsCallTo(info, kv.Value, "(github.com/libp2p/go-libp2p/core/host.Host).ID"); isCall {
 					okSelf = call != nil
@@ -267,7 +267,7 @@ func runC06(c *Ctx) {
 				}
 				la := eng.LenArg(info, x)
 				s, isSel := eng.Unparen(defOrNil(la)).(*ast.SelectorExpr)
-				return la != nil && isSel && s.Sel.Name == "Addrs" && eng.IsObj(info, s.X, self)
+				return la != nil && isSel && eng.NameOf(s.Sel) == "Addrs" && eng.IsObj(info, s.X, self)
 			})
 			c.Check(K(f.Name, "needs addresses"), call.Pos(), g, "no ADD_PROVIDER is sent for a node without advertised addresses", "SendMessage not guarded by len(self.Addrs) >= 1")
 			// the record carried is built from self
@@ -373,7 +373,7 @@ func runC06(c *Ctx) {
 					okEl := rng != nil && rng.Value != nil && len(app.Args) == 2 && eng.SameExpr(ginfo, app.Args[1], rng.Value)
 					if okEl {
 						s, isSel := eng.Unparen(rng.X).(*ast.SelectorExpr)
-						okEl = isSel && s.Sel.Name == "peers"
+						okEl = isSel && eng.NameOf(s.Sel) == "peers"
 					}
 					gH, _ := gcf.Guarded(gcf.LocOf(as), func(ft eng.Fact) bool {
 						o, truth, isB := ft.BoolVar()
